@@ -320,6 +320,38 @@ class ChartRules:
             if key != REQUIRED[cq]:
                 fail(r, ctx, f, w["ret"].node, f"{c.name} is fed the body of section [{key}] instead of its own [{REQUIRED[cq]}]")
 
+    def check_chart_init(self, r: Rule) -> None:
+        """Chart(...) stores each argument under the attribute of the same name, nothing else, no shared default."""
+        ctx = self.ctx
+        c = ctx.cls(CHART)
+        init = c.find_method("__init__")
+        r.inst("Chart.__init__: metadata / global_events_track / sync_track / instrument_tracks stored under their own names")
+        if init is None:
+            fail(r, ctx, c, c.node, "Chart.__init__ vanished")
+            return
+        s = ctx.summary(init)
+        want = {"metadata", "global_events_track", "sync_track", "instrument_tracks"}
+        got = {}
+        for e in s.effects:
+            if e.kind == "store_attr" and e.target == ("self", CHART):
+                got[e.key] = e.value
+            else:
+                fail(r, ctx, init, e.node, f"Chart.__init__ has an unexpected effect ({e.kind} on {show(e.target)[:60]})")
+        for name in want:
+            if got.get(name) != ("param", name):
+                fail(r, ctx, init, init.node, f"Chart.{name} must be the constructor argument `{name}`; found {show(got.get(name))[:80] if got.get(name) else None}")
+        for d in list(init.node.args.defaults) + [x for x in init.node.args.kw_defaults if x is not None]:
+            if not isinstance(d, ast.Constant):
+                fail(r, ctx, init, d, f"Chart.__init__ has a non-constant default ({ast.unparse(d)[:60]}): one object shared by every chart built without "
+                                      f"that argument")
+        # from_file passes all four, positionally or by name, in the declared meaning
+        rets = self.s.rets()
+        if len(rets) == 1 and rets[0].value[0] == "call":
+            kw = dict(rets[0].value[3])
+            missing = want - set(kw)
+            if missing:
+                fail(r, ctx, self.f, rets[0].node, f"Chart.from_file builds the Chart without {sorted(missing)}")
+
     # ------------------------------------------------------------------ P6 routing table + loop
     def routing(self, r: Rule) -> Optional[dict]:
         """Analyse the routing loop; returns its parts."""
